@@ -38,7 +38,8 @@ def plan(tier):
         "budget_s": 45 if q else 500,
         "timeout_s": 420 if q else 2000,
         "min_nontrivial": 50 if q else 600,
-        "required_counters": ["oracle_exact_counts", "oracle_necessary_condition", "jobs_checked"],
+        "required_counters": ["oracle_exact_counts", "oracle_necessary_condition", "jobs_checked",
+                              "exact_two_deployments", "exact_pop_processor_outputs"],
         "rule": "case = (shape, fault set, seed); single faults over every (job, phase, soft|own, count 1..3) of shapes with "
                 "parallel branches (scatter 3/5, diamond, scatter-diamond), pipelines and loops, multi-fault subsets, and "
                 "fail-stop/all faults for the necessary condition. Non-trivial = a fault fired and the run completed.",
@@ -54,7 +55,11 @@ def gen_cases(sh: Shard):
     rng = sh.rng("cases")
     shapes = [C.pipeline(3), C.scatter(3), C.scatter(5), C.scatter(2, body=2), C.diamond(1, 2), C.diamond(2, 2, pre=False),
               C.loop(3), C.loop(2, pre=True, post=True), C.combo_scatter_diamond(2), C.combo_pipe_scatter_pipe(3),
-              C.combo_diamond_scatter(2), C.scatter(12)]
+              C.combo_diamond_scatter(2), C.scatter(12),
+              # two deployments (a staged copy is a second PRIMARY replica; `own` wipes only the consumer's copy) and
+              # outputs extracted through PopCommandOutputProcessor
+              C.two_sites(3, (2,)), C.two_sites(3, (1, 2)), C.two_sites(4, (1, 3)), C.two_sites_scatter(3),
+              C.with_pop(C.pipeline(3)), C.with_pop(C.scatter(3)), C.with_pop(C.diamond(1, 2))]
     if not sh.quick():
         shapes += [C.scatter(8, body=2), C.loop(5, body=2), C.combo_scatter_loop(3, 3), C.combo_loop_scatter(3, 2),
                    C.pipeline(5)]
@@ -111,6 +116,10 @@ def run_case(sh: Shard, case: dict) -> None:
         bad(f"jobs executed that the program does not contain: {stray}")
     if mode == "exact":
         sh.count("oracle_exact_counts")
+        if prog.get("sites"):
+            sh.count("exact_two_deployments")
+        if prog.get("pop"):
+            sh.count("exact_pop_processor_outputs")
         wrong = {}
         two_input = {j["job"] for j in jobs if len(j["deps"]) >= 2}
         own_dir_faults = {f["job"] for f in faults if f["kind"] == "own" and f["phase"] != "execute"}
